@@ -274,3 +274,114 @@ def c10(c):
         generic_monitor(c, "teval_check", ["teval-check", c.seed, 200 if c.tier == "quick" else 4000], "te")
     c.violations = [v for v in c.violations if not str(v["replay"].get("finding_key", "")).startswith(("c08", "c09", "c05-exact", "c05-value", "c05-dense", "c05-early-stop-budget"))]
     c.partial = ["solver side (Interrupt ⇒ UserInterrupt, no further step) is C19; 'identical to the run without the terminal flag' is monitored on whole runs (prefix comparison), the handler part is processEvs_prefix"]
+
+
+# ---------------------------------------------------------------------------------------------- control loops
+def solve_stream(c):
+    n = 250 if c.tier == "quick" else 6000
+    return c.stream("xsolve", ["xsolve", c.seed, n], "solve")
+
+
+def only_keys(c, prefixes):
+    """keep monitor violations whose finding key starts with one of `prefixes` (other properties own the rest)"""
+    c.violations = [v for v in c.violations if v["kind"] != "implementation-vs-oracle"
+                    or str(v["replay"].get("finding_key", "")).startswith(prefixes)]
+
+
+C03_THEOREMS = ["Ctl.hAdjust_lands", "Ctl.hIter_success_at_xend", "Ctl.hLoop_success_at_xend", "Ctl.dopri5Params_guard",
+                "Ctl.dop853Params_guard", "Ctl.hIter_cases", "Ctl.hSolve_protocol", "rowsum_rk4", "rowsum_rk23", "rowsum_dopri5", "rowsum_dop853"]
+
+
+def c03(c):
+    common_proof(c, "IvpModel.Props.C03", C03_THEOREMS)
+    if c.build_harness() and c.build_driver():
+        solve_stream(c)
+        generic_monitor(c, "interval_check", ["interval-check", c.seed, 250 if c.tier == "quick" else 5000], "iv")
+        generic_monitor(c, "protocol_check", ["protocol-check", c.seed, 120 if c.tier == "quick" else 3000], "pr")
+    only_keys(c, ("c03",))
+    c.partial = ["RK23/RK4 landing and the 'to rounding' statements in binary64 are covered by the bit-exact co-simulation and the interval monitor, not by a theorem",
+                 "Radau and BDF control loops are not modelled in Lean (monitor only)",
+                 "event-function evaluation times: monitor (Prob.times) only"]
+
+
+C04_THEOREMS = ["Ctl.hIter_reject_of_not_le", "Ctl.rk23Iter_reject_of_not_le", "Ctl.rk23_reject_factor_nan", "Ctl.hIter_cases",
+                "Ctl.hSolve_protocol"]
+
+
+def c04(c):
+    common_proof(c, "IvpModel.Props.C04", C04_THEOREMS)
+    if c.build_harness() and c.build_driver():
+        solve_stream(c)
+        generic_monitor(c, "hostile_check", ["hostile-check", c.seed, 60 if c.tier == "quick" else 1500], "hs", timeout=3000)
+        generic_monitor(c, "interval_check", ["interval-check", c.seed, 120 if c.tier == "quick" else 2000], "iv")
+    only_keys(c, ("c04",))
+    c.partial = ["termination (bounded work) is not a theorem: the monitor runs hostile problems on all six methods under a budget of 2e7 right-hand-side calls",
+                 "overflow to ±inf and panics inside user code are outside the model",
+                 "Radau/BDF Newton-failure counters are not modelled"]
+
+
+C11_THEOREMS = ["Ctl.hSolve_protocol", "Ctl.rk23Solve_inv", "Ctl.rk4Solve_inv", "Ctl.hNextStep_le_hmax",
+                "Ctl.hIter_budget_irrelevant", "Ctl.startMeter_first_step"]
+
+
+def c11(c):
+    common_proof(c, "IvpModel.Props.C11", C11_THEOREMS)
+    if c.build_harness() and c.build_driver():
+        solve_stream(c)
+        generic_monitor(c, "protocol_check", ["protocol-check", c.seed, 200 if c.tier == "quick" else 4000], "pr")
+        generic_monitor(c, "options_check", ["options-check", c.seed, 60 if c.tier == "quick" else 1500], "op")
+    only_keys(c, ("c11",))
+    c.partial = ["|h| ≤ h_max for the *first* step relies on hinit's min(…, hmax) (translated, co-simulated; no separate theorem)",
+                 "the 1% stretch of the final step: monitor only", "Radau/BDF: monitor only"]
+
+
+C12_THEOREMS = ["Ctl.afterCb_passive", "Ctl.hFinish_passive", "Ctl.hAccepted_passive", "Ctl.hIter_passive", "Ctl.hLoop_passive",
+                "SolOutM.step_flag"]
+
+
+def c12(c):
+    common_proof(c, "IvpModel.Props.C12", C12_THEOREMS)
+    # static fact: solve_ivp's builders receive neither t_eval nor dense_output nor anything event-related
+    src = open(os.path.join(REPO, "src/solve/solve_ivp.rs")).read()
+    disp = src[src.index("let result = match options.method"):src.index("match result {")]
+    leaks = [w for w in ("t_eval", "dense_output", "event") if w in disp]
+    c.cov["static_dispatch_blind"] = {"leaks": leaks, "chars": len(disp)}
+    if leaks:
+        c.violation("static-fact", "solve_ivp's solver dispatch mentions %s: output options may reach the steppers" % leaks,
+                    {"file": "src/solve/solve_ivp.rs", "words": leaks}, False)
+    if c.build_harness() and c.build_driver():
+        solve_stream(c)
+        handler_stream(c)
+        generic_monitor(c, "options_check", ["options-check", c.seed, 120 if c.tier == "quick" else 3000], "op")
+    only_keys(c, ("c12",))
+    c.partial = ["RK23/RK4 skeletons: observer independence not restated (same `afterCb`; co-simulated); Radau/BDF: monitor only"]
+
+
+C18_THEOREMS = ["Ctl.Meter.counted_bump", "Ctl.Meter.counted_cb", "Ctl.Meter.counted_refresh", "Ctl.afterCb_counted",
+                "Ctl.dopri5Kernel_ok", "Ctl.dop853Kernel_ok", "Ctl.hinit_calls", "Ctl.rk23_stages_calls", "Ctl.rk4_stages_calls",
+                "Ctl.rk4_update_calls", "Ctl.hSolve_counted", "Ctl.C18_dopri5", "Ctl.C18_dop853", "Ctl.rk23Solve_inv", "Ctl.rk4Solve_inv"]
+
+
+def c18(c):
+    common_proof(c, "IvpModel.Props.C18", C18_THEOREMS)
+    if c.build_harness() and c.build_driver():
+        solve_stream(c)
+        generic_monitor(c, "interval_check", ["interval-check", c.seed, 250 if c.tier == "quick" else 5000], "iv")
+        generic_monitor(c, "protocol_check", ["protocol-check", c.seed, 100 if c.tier == "quick" else 2000], "pr")
+    only_keys(c, ("c18",))
+    c.partial = ["naccpt = number of reported intervals: theorem gives callbacks = chain of accepted steps; a ProbablyStiff exit counts one accepted step that is never delivered",
+                 "njev, and nfev for Radau/BDF: monitor only"]
+
+
+C19_THEOREMS = ["Ctl.hSolve_protocol", "Ctl.rk23Solve_inv", "Ctl.rk4Solve_inv", "Ctl.afterCb_interrupt", "Ctl.afterCb_modified",
+                "Ctl.afterCb_cont", "Ctl.hFinish_interrupt", "Ctl.afterCb_go_meter"]
+
+
+def c19(c):
+    common_proof(c, "IvpModel.Props.C19", C19_THEOREMS)
+    if c.build_harness() and c.build_driver():
+        solve_stream(c)
+        generic_monitor(c, "protocol_check", ["protocol-check", c.seed, 250 if c.tier == "quick" else 5000], "pr")
+    only_keys(c, ("c19",))
+    c.partial = ["'unchanged state is a no-op' and 'doubling doubles everything' are monitored (protocol-check), not proved; open findings: BDF restart, Radau Newton start",
+                 "Radau and BDF protocol: monitor only"]
